@@ -2,9 +2,9 @@
 
     Code modelled (pinned tree):
       io/baseio.py      IOManager.{ios,_get_io,_new_io,_del_io,get_or_create_io,new_spec,add_spec,
-                        del_spec,get_spec_from_value,update_spec_value,_check_sanity},
+                        del_spec,get_spec_from_value,update_spec_value,update_spec,update_path,_check_sanity},
                         BaseSharedIO.{_specs,_can_add_spec,_check_sanity}, BaseIOSpec._check_sanity
-      io/pandasio.py    PandasData.{_can_add_other,_init_spec,_can_update_value,_on_update_value}
+      io/pandasio.py    PandasData.{_can_add_other,_can_update_other,_init_spec,_can_update_value,_on_update_value,sheet}
       io/moduleio.py    ModuleData.{_can_add_other,_on_load_value,_can_update_value}
       core/model.py     ReferenceManager (1848-1996): _valid_to_refs, new_ref, del_ref, change_ref,
                         del_all_spec, update_value, specs, get_spec, _check_sanity;
@@ -35,7 +35,11 @@
                  overwrites the table entry of [new]
       scalar     new_pandas onto a cells name: rejected here; on a scalar cells the code stores the
                  value in the cells and leaks the spec (only non-scalar cells are generated)
-*)
+      sheet_none spec.sheet = None in an excel file shared with other specs: rejected here; accepted by the code
+    Further recorded defects concern operations outside this vocabulary (deleting a space, absolute
+    paths, sheet '', reading back overridden references): see findings.d/C18.txt.
+    Operations on a closed model are rejected here; the code keeps a closed model fully operational
+    (never generated). *)
 From Coq Require Import List NArith Bool Arith.
 Import ListNotations.
 Open Scope N_scope.
@@ -376,7 +380,10 @@ Inductive op :=
 | Update (m old new : N) (vk : vkind)
 | AddBase (m s b : N)
 | RemoveBase (m s b : N)
-| Close (m : N).
+| Close (m : N)
+| SetSheet (m v : N) (sh : option N)       (* model.get_spec(value).sheet = sh *)
+| SetPath (m v p : N)                      (* model.get_spec(value).path = p : moves the whole shared file *)
+| DelSpec (m v : N).                       (* model.del_spec(value) *)
 
 Inductive outcome := ROk | RErr | RFuel.
 
@@ -460,6 +467,53 @@ Definition close (st : state) (m : N) : res state :=
        Ok (mkState (st_refs st) (st_tab st) (fold_left (fun sp sid => del_spec sid sp) (rev sids) (st_specs st))
                    (st_spaces st) (st_bases st) (st_cells st) (m :: st_closed st) (st_next st)).
 
+(** PandasData.sheet setter: IOManager.update_spec, BaseSharedIO._can_update_spec,
+    PandasData._can_update_other ([other is self or sheet != self._sheet]).
+    Ideal: in a file shared with other specs the new sheet must be a name (the code also accepts None,
+    which _can_add_other would have refused; recorded as finding sheet_none). *)
+Definition can_update_other (c s : spec) (sh : option N) : bool :=
+  N.eqb (s_id c) (s_id s) || negb (optN_eqb sh (s_sheet c)).
+Definition with_sheet (s : spec) (sh : option N) : spec :=
+  mkSpec (s_id s) (s_io s) (s_grp s) (s_path s) (s_kind s) sh (s_val s).
+Definition with_path (s : spec) (p : N) : spec :=
+  mkSpec (s_id s) (s_io s) (s_grp s) p (s_kind s) (s_sheet s) (s_val s).
+
+Definition set_sheet (st : state) (m v : N) (sh : option N) : res state :=
+  if is_closed st m then Err else
+  match get_spec m v (st_specs st) with
+  | None => Err                                                     (* spec not found *)
+  | Some s =>
+      match s_kind s with
+      | KModule => Err                        (* ModuleData has no sheet property: outside the vocabulary *)
+      | _ =>
+        let file := filter (same_file (s_grp s) (s_path s)) (st_specs st) in
+        let shared := existsb (fun c => negb (N.eqb (s_id c) (s_id s))) file in
+        if shared && match sh with None => true | Some _ => false end then Err      (* ideal *)
+        else if forallb (fun c => can_update_other c s sh) file
+        then Ok (with_specs st (map (fun c => if N.eqb (s_id c) (s_id s) then with_sheet c sh else c) (st_specs st)))
+        else Err                                                    (* cannot change spec *)
+      end
+  end.
+
+(** BaseIOSpec.path setter: IOManager.update_path moves the shared io (with all its specs) to a free key *)
+Definition set_path (st : state) (m v p : N) : res state :=
+  if is_closed st m then Err else
+  match get_spec m v (st_specs st) with
+  | None => Err
+  | Some s =>
+      if N.eqb p (s_path s) then Ok st
+      else if existsb (same_file (s_grp s) p) (st_specs st) then Err        (* cannot change path *)
+      else Ok (with_specs st (map (fun c => if same_file (s_grp s) (s_path s) c then with_path c p else c) (st_specs st)))
+  end.
+
+(** Model.del_spec *)
+Definition del_spec_op (st : state) (m v : N) : res state :=
+  if is_closed st m then Err else
+  match get_spec m v (st_specs st) with
+  | None => Err
+  | Some s => Ok (with_specs st (del_spec (s_id s) (st_specs st)))
+  end.
+
 (** del_attr *)
 Definition del_attr (fuel : nat) (st : state) (o : owner) (n : N) : res state :=
   if is_closed st (fst o) then Err else
@@ -542,6 +596,9 @@ Definition step (fuel : nat) (st : state) (o : op) : state * outcome :=
   | AddBase m s b => finish st (add_base fuel st m s b)
   | RemoveBase m s b => finish st (remove_base fuel st m s b)
   | Close m => finish st (close st m)
+  | SetSheet m v sh => finish st (set_sheet st m v sh)
+  | SetPath m v p => finish st (set_path st m v p)
+  | DelSpec m v => finish st (del_spec_op st m v)
   end.
 
 Definition run (fuel : nat) (ops : list op) : state :=
@@ -565,6 +622,10 @@ Definition creation (o : op) : option (owner * N * N) :=
   | NewModule ow n _ v _ => Some (ow, n, v)
   | _ => None
   end.
+
+(** the spec an operation deletes on request (Model.del_spec) *)
+Definition explicit (o : op) : option key :=
+  match o with DelSpec m v => Some (m, v) | _ => None end.
 
 (** equal up to the counter of fresh object identities *)
 Definition same_but_next (a b : state) : Prop :=
